@@ -1,6 +1,6 @@
 """C17 - Binary object format round-trips every object file (R2: writer/reader codec tables)."""
 import re
-from lib import codec, panics
+from lib import codec, panics, nf
 from lib.panics import _unwrap_var, interval
 
 LEVEL = "other"
@@ -9,6 +9,33 @@ LEVEL = "other"
 def norm_int(e):
     w = {"u8": 1, "i8": 1, "u16": 2, "i16": 2, "u32": 4, "u64": 8, "usize": 8}.get(e["ty"])
     return ("int", e["ty"] if w != 1 else "byte", e["endian"] if w != 1 else "-")
+
+
+
+def reader_rejections(b):
+    """why a deserializer returns None: ('propagate', callee whose failure is propagated by `?`) and
+    ('explicit', normal form of the nearest dominating test) for every `None` it builds itself"""
+    xb = nf.XB(b)
+    out = []
+    order = lambda d: len(b.dominators().get(d, ()))
+    for bi, si, s in b.stmts():
+        if s["k"] == "assign" and s["p"]["l"] == 0 and not s["p"]["proj"] and s["rv"]["k"] == "agg" and s["rv"].get("variant") == "None":
+            d0 = "?"
+            for d in sorted(b.dominators().get(bi, ()), key=order, reverse=True):
+                tt = b.blocks[d]["term"]
+                if tt["k"] == "switch" and d != bi:
+                    d0 = nf.anon_locals(nf.pp_x(xb.expr_of_operand(tt["discr"], 3, (d, "term"))))
+                    break
+            out.append(("explicit", d0))
+    for bi, t, c, _ in b.calls():
+        if (c or "").endswith("from_residual"):
+            last = "?"
+            for d in sorted(b.dominators().get(bi, ()), key=order):
+                tt = b.blocks[d]["term"]
+                if tt["k"] == "call" and (tt["func"].get("fn") or "").endswith("Try::branch"):
+                    last = nf.pp_x(xb.expr_of_operand(tt["args"][0], 3, (d, "term"))).split("(")[0]
+            out.append(("propagate", last))
+    return out
 
 
 def run(ck, ctx):
@@ -150,6 +177,18 @@ def run(ck, ctx):
     for adt, fields in (("asm::ObjectFile", {"block_map", "sym"}), ("asm::SymbolTable", {"label_map", "rel_map", "debug_symbols"}), ("asm::DebugSymbols", {"line_map", "src_info"})):
         ck.ob("C17.4", "rebuilt-fields:" + adt.split("::")[-1], set(final.get(adt, {})) == fields, "%s built with fields %s" % (adt, sorted(final.get(adt, {}))), "src/asm/encoding.rs")
     ck.ob("C17.4", "nl_indices-recomputed", discharge.source_info_inv(F), "SourceInfo.nl_indices is never serialised; it is recomputed by from_string on both paths", "src/asm.rs")
+    # C17.5: the reader may refuse input only for the reasons it has at the pinned commit - short input (take/take_slice),
+    # a wrong magic/version, invalid UTF-8, an unknown block tag, an unsorted or overlapping line table.  Any further
+    # refusal (a range check on a block, a length limit) rejects files the writer produces.
+    db = F.bodies.get("<asm::encoding::BinaryFormat as asm::encoding::ObjFileFormat>::deserialize")
+    if ck.anchor("C17.5", "BinaryFormat::deserialize", db):
+        rj = reader_rejections(db)
+        prop = set(k for t_, k in rj if t_ == "propagate")
+        expl = sorted(k for t_, k in rj if t_ == "explicit")
+        allowed = {"strip_prefix", "take", "take_slice", "Result::ok", "assert_sorted_no_dup", "LineSymbolMap::from_blocks"}
+        ck.ob("C17.5", "reader-refusals", prop <= allowed and len(expl) == 1 and expl[0].startswith("split_first("),
+              "the binary reader returns None only for: failures of %s and %d explicit None under %s (allowed: %s and the unknown-tag arm)" % (sorted(prop), len(expl), expl, sorted(allowed)),
+              "src/asm/encoding.rs:%s" % db.line)
     ck.include("C24", ctx, "C17.4", {"C24.1", "C24.2"}, "the reader's strictly-increasing validator accepts what the producer records")
     ck.assume("an empty symbol table without debug symbols is read back as `sym: None` (not producible by assemble*/link of assembled files)")
     ck.assume("the reader's validators accept what producers emit: strictly increasing addresses per line block (C24)")
